@@ -166,6 +166,11 @@ func (v *verdicts) add(sig, what string) {
 	if _, ok := v.m[sig]; !ok {
 		v.order = append(v.order, sig)
 	}
+	for _, w := range v.m[sig] {
+		if w == what {
+			return
+		}
+	}
 	v.m[sig] = append(v.m[sig], what)
 }
 
@@ -258,11 +263,27 @@ func reportedInvalid(output string) (ids map[string]bool, otherLines []string) {
 	return
 }
 
-// judgeVerify: reported is the set of IDs Verify named as not matching. complete says whether
-// Verify ran to the end (returned nil); an interrupted run may have reported/removed less.
-func judgeVerify(v view, before, after snap, reported map[string]bool, repair, complete bool) *verdicts {
+// How a Verify call ended.
+const (
+	vComplete = "complete" // returned nil: everything must have been looked at
+	vExcused  = "excused"  // the harness cancelled the context and Verify said so: may be incomplete
+	vAborted  = "aborted"  // returned an error although nobody interrupted it
+)
+
+// judgeVerify: reported is the set of IDs Verify named as not matching. The statement makes
+// Verify's promise unconditional, so a run that gives up with an error on a healthy directory
+// and leaves invalid chunks unreported is flagged too, under one signature of its own
+// ("aborted-incomplete").
+func judgeVerify(v view, before, after snap, reported map[string]bool, repair bool, ended string) *verdicts {
 	var out verdicts
 	sig := func(s string) string { return "C16:" + v.backend + ":verify:" + s }
+	complete := ended != vExcused
+	incomplete := func(s string) string {
+		if ended == vAborted {
+			return sig("aborted-incomplete")
+		}
+		return sig(s)
+	}
 	ownInvalid := map[string]bool{}
 	ownValid := map[string]bool{}
 	for _, k := range sortedKeys(before) {
@@ -279,13 +300,13 @@ func judgeVerify(v view, before, after snap, reported map[string]bool, repair, c
 			if bad {
 				ownInvalid[cl.ID] = true
 				if complete && !reported[cl.ID] {
-					out.add(sig("missed-invalid"), k)
+					out.add(incomplete("missed-invalid"), k)
 				}
 				if gone && !repair {
 					out.add(sig("removed-without-repair"), k)
 				}
 				if !gone && repair && complete {
-					out.add(sig("repair-left-invalid"), k)
+					out.add(incomplete("repair-left-invalid"), k)
 				}
 			} else {
 				ownValid[cl.ID] = true
